@@ -122,6 +122,7 @@ class Harness:
         recs = []
         crashes = []
         i = 0
+        ntimeouts = 0
         while i < len(lines):
             rc, out, err = common.run_lines(self.exe, lines[i:], timeout=3600, args=[str(self.budget), str(self.secs)])
             r = parse_records(out, True)
@@ -132,6 +133,14 @@ class Harness:
                 r[-1].err = "timeout"          # complete record, the harness stopped itself
                 recs += r
                 i += len(r)
+                ntimeouts += 1
+                if ntimeouts >= 8:
+                    # something hangs systematically: the first ones are enough to report, the rest would take hours
+                    while len(recs) < len(lines):
+                        sk = Rec()
+                        sk.err = "skipped"
+                        recs.append(sk)
+                    break
                 continue
             # died without finishing the request at index i + len(r)
             recs += r
@@ -249,7 +258,20 @@ def run_programs(ctx, h, progs, flags="-", what="program", theorem="", ordered_m
             stats["not-predicted"] += 1
         elif len(m.res) >= 1 or m.soft or m.err:
             nontrivial.add(p)
-        if i.err == "crash":
+        if i.err in ("crash", "skipped"):
+            continue
+        if i.err == "timeout" and comparable(m) and not (m.err or "").startswith("run:fuel") and stats["mismatch:hang"] < 2 \
+                and reported < max_report:
+            # the model evaluates the program to completion: give the implementation ten times the limit, alone
+            rc_, out_, _ = common.run_lines(h.exe, ["Q %s %s" % (flags, hx(p))], timeout=600, args=[str(h.budget), str(h.secs * 10)])
+            r_ = parse_records(out_, True)
+            if r_ and r_[0].err and r_[0].err.startswith("timeout"):
+                stats["mismatch:hang"] += 1
+                reported += 1
+                ctx.violation("%s %r: the implementation does not finish within %d s; its documented meaning is finite (%d results%s)"
+                              % (what, p, h.secs * 10, len(m.res), ", " + m.err if m.err else ""),
+                              {"stream": label, "input": p, "flags": flags, "got": "no end within %d s" % (h.secs * 10),
+                               "expected": m.raw[:20], "theorem": theorem}, found_input=True)
             continue
         kind, d = classify_mismatch(i, m)
         if kind is None:
